@@ -16,7 +16,7 @@ RULE = ("altitude grid -1400..36000 ft (50 ft quick / 5 ft thorough) + random al
         "altitudes; a case = (clause, inputs); non-trivial unless it is the sea-level standard atmosphere itself")
 MUST_OBSERVE = ["isa_points", "cross_pairs", "station_altitude_exact", "seam_checks", "mono_pressure", "mono_temperature",
                 "mono_humidity_fraction", "mono_humidity_percent", "humidity_equivalence", "humidity_rejected",
-                "vacuum_queries", "nonstandard_station_seam", "history_cases", "isa_points_under_other_preferred_units"]
+                "vacuum_queries", "nonstandard_station_seam", "history_cases", "isa_points_under_other_preferred_units", "cross_queries_at_sea_level_exactly"]
 ASSUMPTIONS = ["R-ISA: T0 288.15 K, P0 101325 Pa, L 6.5 K/km, g0 9.80665, M 0.0289644, R* 8.31432, gamma 1.4, rho0 1.225 kg/m3",
                "humidity pairs for monotonicity are given in one convention (both fractions in [0,1] or both percents in (1,100])"]
 T0, P0, L, G0, M, R, GAMMA, RHO0 = 288.15, 101325.0, 0.0065, 9.80665, 0.0289644, 8.31432, 1.4, 1.225
@@ -290,9 +290,12 @@ def run(ctx):
             h1 = h0
         elif k < 0.45:
             h1 = h0 + rng.choice([-1, 1]) * rng.choice([29.999, 30.0, 30.001, rng.uniform(0, 30), rng.uniform(30, 60)])
+        elif k < 0.5:
+            h1 = rng.choice([0.0, -0.0, 0, 1e-9, -1e-9])       # sea level exactly (a legitimate query that is falsy in Python) and next to it
+            ctx.count("cross_queries_at_sea_level_exactly")
         else:
             h1 = round(rng.uniform(-1400, 36000), 2)
-        h1 = min(36000.0, max(-1400.0, h1))
+        h1 = min(36000.0, max(-1400.0, h1)) if h1 else h1
         check_cross(ctx, h0, h1)
     for _ in range(ctx.share(n // 4)):
         check_station_seam(ctx, {"clause": "station-seam", "alt_ft": round(rng.uniform(-1000, 15000), 1),
